@@ -23,6 +23,10 @@ type Cfg struct{ K, V string }
 type Res struct {
 	Name string
 	Cfg  []Cfg // file configuration
+	// with a unit projection (Case.WithUnit): the units of the result's measurements, and whether
+	// the result is projected as a whole (Project: .unit stays empty) or per measurement
+	Units []string `json:",omitempty"`
+	Whole bool     `json:",omitempty"`
 }
 
 type FieldSpec struct {
@@ -35,6 +39,9 @@ type Case struct {
 	Fields []FieldSpec
 	Stream []Res
 	Perms  [][]int // permutations (as index lists, applied modulo the number of distinct keys)
+	// WithUnit: the expression is parsed with ParseWithUnit; a .unit field (first-observation
+	// order) follows the written fields
+	WithUnit bool `json:",omitempty"`
 }
 
 func exprText(fs []FieldSpec) string {
@@ -72,7 +79,10 @@ func mkResult(r Res) *benchfmt.Result {
 // ---------------------------------------------------------------------------
 // reference numeric reading of values (only for unambiguous spellings)
 
-var sufRe = regexp.MustCompile(`^([0-9]+(?:\.[0-9]*)?|\.[0-9]+)([kKMGTPEZY]i?)?[bB]?$`)
+// a number, an optional metric or IEC prefix, and an optional unit word (letters and '/': "10Mbit",
+// "2Gbit/s", "3KiB"); the prefix is IEC exactly when an 'i' follows it directly
+var sufRe = regexp.MustCompile(`^([0-9]+(?:\.[0-9]*)?|\.[0-9]+)([kKMGTPEZY]i?)?[bB]?(?:[A-Za-z/]*)$`)
+
 // a text without any digit is not a number (the spellings of infinity and NaN are recognised before)
 var wordRe = regexp.MustCompile(`^[^0-9]+$`)
 
@@ -178,7 +188,14 @@ func Check(c Case) (v vcase.Verdict) {
 	text := exprText(c.Fields)
 	var pp benchproc.ProjectionParser
 	flt, _ := benchproc.NewFilter("*")
-	proj, err := pp.Parse(text, flt)
+	var proj *benchproc.Projection
+	var err error
+	if c.WithUnit {
+		proj, _, err = pp.ParseWithUnit(text, flt)
+		v.Label("unit_projection")
+	} else {
+		proj, err = pp.Parse(text, flt)
+	}
 	if err != nil {
 		v.Failf("Parse(%q): %v", text, err)
 		return
@@ -186,18 +203,38 @@ func Check(c Case) (v vcase.Verdict) {
 	// project the stream (through the filter implied by fixed lists)
 	var keys []benchproc.Key
 	seenKey := map[benchproc.Key]bool{}
-	var kept []Res
-	for _, r := range c.Stream {
-		res := mkResult(r)
-		if ok, _ := flt.Apply(res); !ok {
-			continue
-		}
-		k := proj.Project(res)
-		kept = append(kept, r)
+	var kept []Res        // one entry per projected tuple, in the order of projection
+	var keptUnit []string // its .unit value (unit projections only)
+	note := func(k benchproc.Key, r Res, unit string) {
+		kept, keptUnit = append(kept, r), append(keptUnit, unit)
 		if !seenKey[k] {
 			seenKey[k] = true
 			keys = append(keys, k)
 		}
+	}
+	for _, r := range c.Stream {
+		res := mkResult(r)
+		if c.WithUnit && len(r.Units) > 0 {
+			res.Values = res.Values[:0]
+			for i, u := range r.Units {
+				res.Values = append(res.Values, benchfmt.Value{Value: float64(i + 1), Unit: u})
+			}
+		}
+		if ok, _ := flt.Apply(res); !ok {
+			continue
+		}
+		if c.WithUnit && !r.Whole {
+			ks := proj.ProjectValues(res)
+			if len(ks) != len(res.Values) {
+				v.Failf("ProjectValues returned %d keys for %d measurements", len(ks), len(res.Values))
+				return
+			}
+			for i, k := range ks {
+				note(k, r, res.Values[i].Unit)
+			}
+			continue
+		}
+		note(proj.Project(res), r, "")
 	}
 	// reference: flattened fields and first-observation ranks
 	specOf := map[string]FieldSpec{}
@@ -217,6 +254,8 @@ func Check(c Case) (v vcase.Verdict) {
 		ff := &flatField{name: f.Name, rank: map[string]int{}}
 		if s, ok := specOf[f.Name]; ok && f.Name != ".config" {
 			ff.spec = s
+		} else if c.WithUnit && f.Name == ".unit" {
+			ff.spec = FieldSpec{Key: ".unit"}
 		} else {
 			ff.spec = specOf[".config"]
 			ff.inGroup = true
@@ -253,9 +292,12 @@ func Check(c Case) (v vcase.Verdict) {
 		}
 		return ""
 	}
-	for _, r := range kept {
+	for ki, r := range kept {
 		for _, ff := range flat {
 			val := valueOf(r, ff)
+			if c.WithUnit && ff.name == ".unit" && !ff.inGroup {
+				val = keptUnit[ki]
+			}
 			if ff.inGroup && val == "" {
 				continue // a missing .config sub-key is not an observation of that key
 			}
@@ -489,7 +531,9 @@ var numUnamb = []string{"12", "1.5", "2k", "1Mi", "3GiB", "1e3", "NaN", "inf", "
 	"010", "016", "0100", "070", "15", "70", "08", "0x10", "1_000",
 	"99999999", "100000001", "16777217", "16777216", "1e39", "2e38", "9007199254740993", "123456789.5", "33554433",
 	// no digit at all: not numbers, whatever dots and signs they contain
-	"...", "N.A.", ".", "-.", "..", "a.b", "-", "+", "e", ".k", "kB", "Ki"}
+	"...", "N.A.", ".", "-.", "..", "a.b", "-", "+", "e", ".k", "kB", "Ki",
+	// prefixed numbers followed by a unit word
+	"10Mbit", "10300k", "2Gbit/s", "1500Mbit/s", "5kitems", "3Kibit", "2Mibit", "1Gbps", "9Mbit", "9437184bit", "1200kbit"}
 var numArb = []string{"x1", "1k2", "..", "1m", "v2.0", "1.2.3", "k", "0x10", "1_0", "٣"}
 var wordVals = []string{"linux", "darwin", "b", "a", "c", "Z", "é", "aa", "B"}
 
@@ -577,6 +621,15 @@ func Gen(t *rapid.T) Case {
 			}
 		}
 		c.Stream = append(c.Stream, r)
+	}
+	if vcase.OneIn(t, 5, "withunit") {
+		c.WithUnit = true
+		for i := range c.Stream {
+			for n := rapid.IntRange(1, 3).Draw(t, "nunits"); n > 0; n-- {
+				c.Stream[i].Units = append(c.Stream[i].Units, rapid.SampledFrom([]string{"sec/op", "B/op", "allocs/op", "widgets"}).Draw(t, "unit"))
+			}
+			c.Stream[i].Whole = rapid.IntRange(0, 3).Draw(t, "whole") == 0
+		}
 	}
 	np := rapid.IntRange(1, 3).Draw(t, "nperms")
 	for i := 0; i < np; i++ {
